@@ -99,6 +99,16 @@ fn alphabet(fam: &Family, big: bool) -> Vec<Vec<f64>> {
         Family::Perm4 => vec![vec![0.6, 1.8, 0.4, 0.25], vec![0.5, 2.0, 0.3, 0.2], vec![1.0, 1.0, 1.0, 1.0], vec![0.2, 3.0, -0.5, 0.6], vec![0.5, 0.3, 2.0, 0.2], vec![1.5, 0.7, 0.1, 0.05]],
         Family::ExpN(n) => (0..4).map(|v| (0..*n).map(|j| 0.4 * 2.0f64.powi(j as i32) * (1.0 + 0.1 * v as f64)).collect()).collect(),
     };
+    // moves of ONE coordinate: entry 0 with coordinate k taken from entry 1, for every k - all other parameters stay
+    // bit-identical across the update (anything remembered per parameter must still notice that its function changed)
+    if v[0].len() >= 2 && !matches!(fam, Family::PolyMat(_) | Family::ExpN(_)) {
+        let (a, b) = (v[0].clone(), v[1].clone());
+        for k in 0..a.len() {
+            let mut c = a.clone();
+            c[k] = b[k];
+            v.push(c);
+        }
+    }
     if big {
         let extra: Vec<Vec<f64>> = v.iter().take(3).map(|a| a.iter().enumerate().map(|(k, x)| x * (1.0 + 0.07 * (k as f64 + 1.0))).collect()).collect();
         v.extend(extra);
@@ -778,8 +788,28 @@ impl<'a, T: Sc> Explorer<'a, T> {
                     continue;
                 }
             }
-            let mut child: Vec<Box<dyn Prob<T>>> = node.iter().map(|p| p.clone_box()).collect();
             let a = DVector::from_vec(self.alphas_t[ai].clone());
+            let mut child: Vec<Box<dyn Prob<T>>> = if self.sc.prov == Prov::Built {
+                // a builder-made model cannot be copied (copying rebuilds it, which would forget whatever the model remembers):
+                // the child is reached by re-executing the whole history, queries included, on freshly built problems
+                let a0 = self.alphas_t[0].clone();
+                let mut fresh: Vec<Box<dyn Prob<T>>> = self.roles.clone().iter().map(|r| build_role(&self.env, self.sc, r, &a0)).collect();
+                for &hi in &self.hist {
+                    for p in fresh.iter() {
+                        let _ = observe(p.as_ref());
+                    }
+                    let ah = DVector::from_vec(self.alphas_t[hi].clone());
+                    for p in fresh.iter_mut() {
+                        p.set(&ah);
+                    }
+                }
+                for p in fresh.iter() {
+                    let _ = observe(p.as_ref());
+                }
+                fresh
+            } else {
+                node.iter().map(|p| p.clone_box()).collect()
+            };
             for p in child.iter_mut() {
                 p.set(&a);
             }
@@ -822,6 +852,28 @@ impl<'a, T: Sc> Explorer<'a, T> {
         // beyond the depth bound: a few LONG deterministic walks (count-dependent effects such as a cache that
         // is refreshed only every k-th update): the whole alphabet cyclically x3, every entry repeated 4 times,
         // and a ping-pong between the first and every other entry
+        if let Some(p) = self.only_path.clone() {
+            // replay of a history longer than the depth bound (found by a long walk): the companion history first, then the
+            // history itself, each as a walk from the root with the checks of every step
+            let depth = self.sc.depth;
+            for w in [self.companion_path.clone(), Some(p)].into_iter().flatten() {
+                if w.len() <= depth {
+                    continue;
+                }
+                let mut node: Vec<Box<dyn Prob<T>>> = root.iter().map(|p| p.clone_box()).collect();
+                self.hist.clear();
+                for &ai in &w {
+                    let prev: Vec<u64> = node[0].params().iter().map(|v| v.bits()).collect();
+                    let a = DVector::from_vec(self.alphas_t[ai].clone());
+                    for p in node.iter_mut() {
+                        p.set(&a);
+                    }
+                    self.hist.push(ai);
+                    self.check_state(&node, ai, Some(prev));
+                }
+                self.hist.clear();
+            }
+        }
         if self.only_path.is_none() {
             let n = self.alphas_t.len();
             let mut walks: Vec<Vec<usize>> = vec![];
@@ -874,7 +926,7 @@ thread_local! {
 fn explore<T: Sc>(ctx: &Ctx, sc: &Scen, sc_index: usize, prop: &str, only_path: Option<Vec<usize>>) {
     let env = Env::<T>::new(sc);
     let alphas_t: Vec<Vec<T>> = sc.alphas.iter().map(|a| a.iter().map(|&v| T::f(v)).collect()).collect();
-    let failing: Vec<bool> = sc.alphas.iter().map(|a| matches!(sc.domain, Some((_, idx, thr)) if !(a[idx] > thr)) || (matches!(sc.fam, Family::GuardExp) && !(a[0] > 0.0))).collect();
+    let failing: Vec<bool> = sc.alphas.iter().map(|a| a.len() != sc.fam.p() || matches!(sc.domain, Some((_, idx, thr)) if !(a[idx] > thr)) || (matches!(sc.fam, Family::GuardExp) && !(a[0] > 0.0))).collect();
     let mut ex = Explorer {
         ctx,
         sc,
@@ -971,7 +1023,7 @@ fn scenarios(prop: &str, thorough: bool) -> Vec<Scen> {
         ycols,
         w,
         eps,
-        alphas: alphabet(fam, thorough && prop != "C07"),
+        alphas: alphabet(fam, thorough && prop != "C07" && prop != "C10"),
         domain: None,
         exact: false,
         depth,
@@ -1211,6 +1263,10 @@ fn scenarios(prop: &str, thorough: bool) -> Vec<Scen> {
                                     bad[0] = -1.0;
                                     s.alphas.truncate(4);
                                     s.alphas.push(bad);
+                                    // a vector of the wrong length (one entry too many): rejected by the model as well
+                                    let mut long = s.alphas[1].clone();
+                                    long.push(1.0);
+                                    s.alphas.push(long);
                                     s.domain = Some((at, 0, 0.0));
                                     extra.push(s);
                                 }
@@ -1233,6 +1289,21 @@ fn scenarios(prop: &str, thorough: bool) -> Vec<Scen> {
                     }
                 }
                 v.extend(extra);
+            }
+            // fewer samples than basis functions (wide basis matrix: thin decompositions have N columns, not M)
+            for (fam, n) in [(Family::Exp2Off, 2usize), (Family::Exp3, 2), (Family::Exp3, 1), (Family::GenProd { m: 3, p: 2, inc: [[true, true, false], [false, true, false], [false, false, false]] }, 2)] {
+                for f32_ in [false, true] {
+                    for par in [false, true] {
+                        if prop == "C11" && !par {
+                            continue;
+                        }
+                        for (api, ycols) in [(Api::Single, vec![YCol::Noisy]), (Api::Mrhs, vec![YCol::Noisy, YCol::Off]), (Api::Mrhs, vec![YCol::Off, YCol::Noisy, YCol::OnModel, YCol::Off])] {
+                            for w in [WKind::None, WKind::Ramp] {
+                                v.push(mk(&fam, n, Prov::Hand, f32_, par, api, ycols.clone(), w, EpsKind::Default));
+                            }
+                        }
+                    }
+                }
             }
             // a threshold BELOW machine epsilon is a legal configuration: singular values between it and machine epsilon are kept
             for f32_ in [false, true] {
@@ -1270,7 +1341,7 @@ fn scenarios(prop: &str, thorough: bool) -> Vec<Scen> {
             }
         }
         "C06" => {
-            let weights = [WKind::Ones, WKind::Threes, WKind::Dyadic, WKind::Ramp, WKind::InvSigma, WKind::Spread, WKind::ZeroAt(0), WKind::ZeroAt(3), WKind::NegAt(1), WKind::NegAt(4), WKind::Tiny, WKind::Huge, WKind::NegRamp, WKind::NegRampZeroAt(2), WKind::Astro];
+            let weights = [WKind::Ones, WKind::Threes, WKind::Dyadic, WKind::Ramp, WKind::InvSigma, WKind::Spread, WKind::ZeroAt(0), WKind::ZeroAt(3), WKind::NegAt(1), WKind::NegAt(4), WKind::Tiny, WKind::Huge, WKind::NegRamp, WKind::NegRampZeroAt(2), WKind::Astro, WKind::Mask(1), WKind::Signs];
             for (fi, (fam, n)) in base_families().iter().enumerate() {
                 for prov in provs {
                     for f32_ in [false, true] {
@@ -1415,11 +1486,11 @@ fn main() {
             let list = scenarios(&prop, tier == "thorough");
             let idx = v["scenario_index"].as_u64().unwrap() as usize;
             let path: Vec<usize> = v["history"].as_array().unwrap().iter().map(|x| x.as_u64().unwrap() as usize).collect();
-            let mut sc = list[idx].clone();
-            sc.depth = path.len();
+            // the depth bound of the exploration is kept: histories within it are replayed by the depth-first search (which
+            // copies the problem at every step, as the exploration did), longer ones - found by a long walk - as a walk
+            let sc = list[idx].clone();
             if let Some(h0) = v.get("compared_with_history").and_then(|h| h.as_array()) {
                 let h0: Vec<usize> = h0.iter().map(|x| x.as_u64().unwrap() as usize).collect();
-                sc.depth = sc.depth.max(h0.len());
                 COMPANION.with(|c| *c.borrow_mut() = Some(h0));
             }
             // the same heap regime as the exploration: fresh memory NaN-poisoned (an element that is never written shows)
